@@ -242,6 +242,10 @@ class C06(Check):
         if e.family.paths:
             apis += ['iter_decode_path', 'res_find']
         api = rng.choice(apis)
+        if e.docs[di].kind == 'fault:double' and api.startswith('to_json'):
+            # two faults x lazy decoding multiplies the listed lazy-decode findings into many surface forms
+            # without adding information: double-fault documents go through validation only
+            api = 'iter_errors'
         op = {'api': api, 'lazy': depth, 'thin': rng.random() < 0.6}
         if api == 'res_depth':
             op['mode'] = rng.randrange(1, 6)
